@@ -155,6 +155,10 @@ func (e *Expression) Add(res fhir.Resource, name string, value fhir.Base, option
 	if !field.IsList() && ref.Has(field) {
 		return fmt.Errorf("%w: unable to add value to populated scalar field '%v' in %v resource", ErrNotPatchable, name, resource.TypeOf(res))
 	}
+	if field.Kind() != protoreflect.MessageKind {
+		// the raw value of a primitive is not an element
+		return fmt.Errorf("%w: field '%v' does not hold an element", ErrNotPatchable, name)
+	}
 
 	var update func(m protoreflect.ProtoMessage)
 	var valueMessage protoreflect.Message
@@ -372,6 +376,9 @@ func (e *Expression) Insert(res fhir.Resource, value fhir.Base, index int, optio
 	if res == nil {
 		return fmt.Errorf("%w: nil input resource", ErrInvalidInput)
 	}
+	if value == nil {
+		return fmt.Errorf("%w: nil value to insert", ErrInvalidInput)
+	}
 	ctx, evalResult, err := e.evaluate(res, options...)
 	if err != nil {
 		return err
@@ -473,6 +480,9 @@ func (e *Expression) Move(resource fhir.Resource, sourceIndex, destIndex int, op
 func (e *Expression) Replace(resource fhir.Resource, value fhir.Base, options ...fhirpath.EvaluateOption) error {
 	if resource == nil {
 		return fmt.Errorf("%w: nil input resource", ErrInvalidInput)
+	}
+	if value == nil {
+		return fmt.Errorf("%w: nil replacement value", ErrInvalidInput)
 	}
 	ctx, evalResult, err := e.evaluate(resource, options...)
 	if err != nil {
@@ -715,6 +725,8 @@ func intValueFromInt(msg protoreflect.Message, val intable) (fhir.Base, error) {
 			}
 			intValue = protoreflect.ValueOfUint32(uint32(val.GetValue()))
 		default:
+			// not an integer-valued element: nothing to normalize
+			return nil, nil
 		}
 		container.Set(valueField, intValue)
 		return container.Interface(), nil
